@@ -218,7 +218,7 @@ def check(ctx, run):
     fi = E.functional(ctx, "ww_width")
     g, S_, c_, a_ = [W.tensor(n) for n in ("gamma", "spot", "cost", "a")]
     val = [r for r in interp.explore(fi, [], dict(gamma=g, spot=S_, cost=c_, a=a_)) if not r["raises"]][0]["value"]
-    ts = ToSympy(assume_positive={"gamma", "spot", "cost", "a"})
+    ts = ToSympy(assume_positive={"spot", "cost", "a"})  # gamma is any real number: European binaries have negative gamma above the strike
     e = ts.conv(val)
     want = (sp.Rational(3, 2) * ts.sym("cost") * ts.sym("gamma") ** 2 * ts.sym("spot") / ts.sym("a")) ** sp.Rational(1, 3)
     ok = sp.simplify(e - want) == 0
